@@ -89,12 +89,20 @@ def install_user_hooks(vm, allow=(), fork_truth=True):
         log("iter", v)
         return [UserVal(f"{getattr(v, 'name', 'x')}[0]")]
 
+    def format_(it, v):
+        if isinstance(v, UserVal):
+            log("format", v)          # f"{v}" / repr(v) run the user's __format__ / __str__ / __repr__
+
+    def str_(it, v):
+        format_(it, v)
+        return "user"
+
     def type_(it, v):
         return v.cls if getattr(v, "cls", None) is not None else it.ext("UserType")
 
     h.update({"truth": truth, "getattr": getattr_, "call": call, "isinstance": isinstance_, "hasattr": hasattr_, "eq": eq,
               "order": order, "iter_value": iter_value, "to_list": to_list, "len": len_, "contains": contains, "type": type_,
-              "str": lambda it, v: "user"})
+              "str": str_, "format": format_})
 
 
 def user_effects(ctx):
